@@ -1,56 +1,105 @@
 import SemVerif.Spec.Preds
 open SemVerif
 
-/-- (tags on a result, projection of a result) for one property -/
+def panicProj (r : Result) (s : String) : String := if r.panic.isSome then "panic" else s
+
+/-- (failing instances on a result, projection of a result) for one property -/
 def evalProp (prop : String) (p : Program) (r : Result) (linksOk : Bool) : List String × String :=
-  match prop with
+  let (tags, proj) : List String × String := match prop with
   | "C01" => (P_C01 p r, pi_verdict r)
   | "C02" => (P_C02 p r, pi_verdict r)
+  | "C03" => (P_C03 p r, pi_stacks (fun i => isValueInstr i || i.isEffect || (match i with | .exprConst _ _ => true | _ => false)) r)
+  | "C04" => (P_C04 p r, pi_stacks (fun _ => true) r ++ tablesStr r)
+  | "C05" => (P_C05 p r, pi_stacks isFlowInstr r)
+  | "C06" => (P_C06 p r, pi_stacks (fun _ => true) r)
+  | "C07" => (P_C07 p r, pi_stacks (fun i => match i with | .exprOp _ _ _ _ => true | _ => false) r)
   | "C08" => (P_C08g p r, pi_stacks (fun i => i.writes.isSome || !i.reads.isEmpty) r)
   | "C09" => (P_C09 r, pi_C09 r)
   | "C10" => (P_C10 p r, pi_stacks isLabelInstr r)
   | "C11" => (P_C11g p r, pi_stacks isReturnInstr r)
   | "C12" => (P_C12 r, pi_stacks isValueInstr r)
-  | "C13" => (P_C13 p r, if r.panic.isSome then "panic" else "ok")
+  | "C13" => (P_C13 p r, "ok")
   | "C14" => (P_C14 p r, pi_firstError r)
-  | "C18" => (if r.panic.isSome then [] else P_C18_shape p r linksOk, pi_C18 r)
+  | "C15" => (P_C15 p r, pi_C15 r)
+  | "C18" => (if r.panic.isSome then [] else P_C18_shape p r linksOk ++ (if acceptedWF p r then P_C18_values p r else []),
+              pi_C18 r ++ " || " ++ " | ".intercalate (r.roots.map wBlock))
+  | "C19" => (P_C19 p r, pi_stacks (fun i => isExtInstr i || !i.reads.isEmpty) r)
   | _ => (["unknown-property"], "")
+  (tags, panicProj r proj)
+
+def groupProp (prop : String) (g : List (Program × Result)) : List String :=
+  match prop with
+  | "C16" => P_C16 g
+  | "C17" => P_C17 g
+  | _ => []
+
+def isGroupProp (prop : String) : Bool := prop == "C16" || prop == "C17"
 
 def features (p : Program) (r : Result) : String :=
   let n := (r.roots.map fun b => b.context.length).sum
-  s!"{pi_verdict r},wf={WellFormedB p},loopok={LoopOKB p},fns={p.fnDecls.length},instrs={n},errs={r.errors.length}"
+  s!"{pi_verdict r},wf={WellFormedB p},loopok={LoopOKB p},f2={p.fnDecls.any FnDecl.hasF2},f3={p.fnDecls.any FnDecl.hasF3},fns={p.fnDecls.length},instrs={n},errs={r.errors.length}"
 
-partial def loop (prop : String) (h : IO.FS.Stream) (idx : Nat) (curP : Option Program) (hdr : String) : IO Unit := do
+structure GroupAcc where
+  hdr : String := ""
+  firstIdx : Nat := 0
+  impl : List (Program × Result) := []
+  model : List (Program × Result) := []
+  full : Bool := true
+  bad : Bool := false
+
+def flushGroup (prop : String) (g : GroupAcc) : IO Unit := do
+  if !isGroupProp prop || (g.impl.isEmpty && !g.bad) then return ()
+  if g.bad then
+    IO.println s!"CASE\t{g.firstIdx}\t{g.hdr}\tBADGROUP"
+  else
+    let ti := groupProp prop g.impl.reverse
+    let tm := groupProp prop g.model.reverse
+    let feat := match g.impl.reverse.head? with
+      | some (p, r) => features p r
+      | none => ""
+    IO.println s!"CASE\t{g.firstIdx}\t{g.hdr}\t{if g.full then 1 else 0}\t{";".intercalate ti}\t{";".intercalate tm}\t{if g.full then 1 else 0}\t{feat},group={g.impl.length}"
+
+partial def loop (prop : String) (h : IO.FS.Stream) (idx : Nat) (curP : Option Program) (g : GroupAcc) : IO Unit := do
   let line ← h.getLine
-  if line.isEmpty then return ()
+  if line.isEmpty then
+    flushGroup prop g
+    return ()
   let line := line.trimAsciiEnd.toString
   if line.startsWith "G " then
-    loop prop h idx none line
+    flushGroup prop g
+    loop prop h idx none { hdr := (line.drop 2).toString, firstIdx := idx }
   else if line.startsWith "P " then
     match Sexp.parse (line.drop 2).toString >>= decProgram with
-    | some p => loop prop h idx (some p) hdr
-    | none => IO.println s!"CASE\t{idx}\t{hdr}\tBADPROG"; loop prop h (idx + 1) none hdr
+    | some p => loop prop h idx (some p) g
+    | none =>
+      if !isGroupProp prop then IO.println s!"CASE\t{idx}\t{g.hdr}\tBADPROG"
+      loop prop h (idx + 1) none { g with bad := true }
   else if line.startsWith "D " then
     match curP with
-    | none => loop prop h idx none hdr
+    | none => loop prop h idx none g
     | some p =>
       let implTxt := (line.drop 2).toString
       match Sexp.parse implTxt >>= decDump with
-      | none => IO.println s!"CASE\t{idx}\t{hdr}\tBADDUMP"; loop prop h (idx + 1) none hdr
+      | none =>
+        if !isGroupProp prop then IO.println s!"CASE\t{idx}\t{g.hdr}\tBADDUMP"
+        loop prop h (idx + 1) none { g with bad := true }
       | some (ri, linksOk) =>
         let rm := run p
         let full := implTxt == printResult rm
-        let (ti, pii) := evalProp prop p ri linksOk
-        let (tm, pim) := evalProp prop p rm true
-        IO.println s!"CASE\t{idx}\t{hdr}\t{if pii == pim then 1 else 0}\t{";".intercalate ti}\t{";".intercalate tm}\t{if full then 1 else 0}\t{features p ri}"
-        loop prop h (idx + 1) none hdr
-  else loop prop h idx curP hdr
+        if isGroupProp prop then
+          loop prop h (idx + 1) none { g with impl := (p, ri) :: g.impl, model := (p, rm) :: g.model, full := g.full && full }
+        else
+          let (ti, pii) := evalProp prop p ri linksOk
+          let (tm, pim) := evalProp prop p rm true
+          IO.println s!"CASE\t{idx}\t{g.hdr}\t{if pii == pim then 1 else 0}\t{";".intercalate ti}\t{";".intercalate tm}\t{if full then 1 else 0}\t{features p ri}"
+          loop prop h (idx + 1) none g
+  else loop prop h idx curP g
 
 def main (args : List String) : IO UInt32 := do
   match args with
   | [prop, f] =>
     let hd ← IO.FS.Handle.mk f .read
-    loop prop (IO.FS.Stream.ofHandle hd) 0 none ""
+    loop prop (IO.FS.Stream.ofHandle hd) 0 none {}
     return 0
   | _ =>
     IO.eprintln "usage: driver <Cxx> <cases-file>"
